@@ -12,6 +12,7 @@ import VK.Model.BallotGraph
 import VK.Model.Loaders
 import VK.Model.Interval
 import VK.Model.Dist
+import VK.Model.Gen
 open Lean VK VK.Codec
 
 def getSTVCfg (j : Json) : D STVCfg := do
@@ -72,6 +73,48 @@ def getScoreRule (s : String) : D ScoreRule :=
   | "general" => pure .general | "rating" => pure .rating | "limited" => pure .limited
   | "cumulative" => pure .cumulative | "approval" => pure .approval | "bloc" => pure .bloc
   | _ => throw "bad score rule"
+
+def optNat (j : Json) : D (Option Nat) := match j with | .null => pure none | _ => do let n ← getNat j; pure (some n)
+def optRats (j : Json) : D (Option (List Rat)) := match j with | .null => pure none | _ => do let l ← getList getRat j; pure (some l)
+
+def getCall (j : Json) : D Gen.Call := do
+  let f ← getStr (← field j "f")
+  match f with
+  | "choice" => do
+    pure (.choice (← getCands (← field j "pop")) (← optRats (fieldD j "p" .null)) (← optNat (fieldD j "k" .null))
+      (← getBool (← field j "replace")) (← getCands (← field j "res")))
+  | "choice_idx" => do
+    pure (.choiceIdx (← getNat (← field j "n")) (← optRats (fieldD j "p" .null)) (← optNat (fieldD j "size" .null))
+      (← getList getNat (← field j "res")))
+  | "uniform" => do pure (.uniform (← getList getRat (← field j "res")))
+  | "shuffle" => do pure (.shuffle (← getList getNat (← field j "x")) (← getList getNat (← field j "res")))
+  | "choices" => do
+    pure (.choices (← getList (getList getNat) (← field j "pop")) (← optRats (fieldD j "weights" .null))
+      (← getNat (← field j "k")) (← getList (getList getNat) (← field j "res")))
+  | "random" => do pure (.random (← getRat (← field j "res")))
+  | "apportion" => do
+    pure (.apportion (← getList getRat (← field j "props")) (← getNat (← field j "n")) (← getList getNat (← field j "res")))
+  | "dirichlet" => do pure (.dirichlet (← getList getRat (← field j "alpha")) (← getList getRat (← field j "res")))
+  | "normal" => do pure (.normal (← optNat (fieldD j "size" .null)) (← getList getRat (← field j "res")))
+  | _ => throw s!"unknown call {f}"
+
+def getGenParams (j : Json) : D Gen.Params := do
+  let hist ← optField j "hist" (getList (getPair (getList getNat) getRat))
+  pure { kind := ← getStr (← field j "kind"),
+         slates := ← getList getCands (fieldD j "slates" .null),
+         cands := ← getCands (fieldD j "cands" .null),
+         props := ← getList getRat (fieldD j "props" .null),
+         cohesion := ← getList (getList getRat) (fieldD j "cohesion" .null),
+         supports := ← getList (getList getScores) (fieldD j "supports" .null),
+         N := ← getNat (fieldD j "N" (jNat 0)), L := ← getNat (fieldD j "L" (jNat 0)),
+         votes := ← getNat (fieldD j "votes" (jNat 0)),
+         tables := ← getList (getList getCands) (fieldD j "tables" .null),
+         types := ← getList (getList (getList getNat)) (fieldD j "types" .null),
+         seeds := ← getList getCands (fieldD j "seeds" .null),
+         point := ← getScores (fieldD j "point" .null),
+         hist := hist,
+         histLetter := ← getList getNat (fieldD j "hist_letter" .null),
+         dists := ← getList (getList getRat) (fieldD j "dists" .null) }
 
 def handle (j : Json) : D Json := do
   let op ← getStr (← field j "op")
@@ -338,6 +381,17 @@ def handle (j : Json) : D Json := do
     let d := shuffleDist n (List.range n)
     let ps := (perms (List.range n)).map (fun o => d.prob o)
     pure (Json.mkObj [("ok", Json.mkObj [("probs", .arr (ps.map jRat).toArray), ("mass", jRat d.mass)])])
+  | "gen" => do
+    let P ← getGenParams (← field j "params")
+    let log ← getList getCall (← field j "log")
+    match Gen.run P log with
+    | .ok o => pure (Json.mkObj [("ok", Json.mkObj [("by_bloc", .arr (o.byBloc.map jBallots).toArray), ("agg", jBallots o.agg)])])
+    | .error e => pure (Json.mkObj [("mismatch", .str e)])
+  | "hh" => do
+    let props ← getList getRat (← field j "props")
+    let n ← getNat (← field j "n")
+    let r := Gen.huntingtonHill props n
+    pure (Json.mkObj [("ok", Json.mkObj [("seats", .arr (r.1.map jNat).toArray), ("tie", .bool r.2)])])
   | "pairwise" => do
     let p ← getProfile (← field j "profile")
     let d := pairwiseDict p
